@@ -38,19 +38,35 @@ SIZES = {"tiny": (1, 6), "small": (7, 30), "medium": (31, 100), "large": (101, 3
 # ----------------------------------------------------------------------------------------
 # budgets (steps = function entries + loop back-edges inside mouette; see sim/budget.py)
 # ----------------------------------------------------------------------------------------
-def build_budget(n, d, strategy):
-    """Measured: a build costs exactly 21 steps per split + 19, whatever n (numpy does the per-point work).
-    balanced (deterministic): a terminating build makes < n useful splits, each preceded by at most d-1
-    useless ones (d useless splits in a row on the same set = it never terminates)  ->  <= 21*d*n steps;
-    the budget is > 10x that.
-    fast / random: the number of useless splits (pivot = maximum on the axis) is random.  For every point set
-    without more than `leaf` identical points E[splits] <= n*(1+8.1*d) (geometric waiting times, DESIGN
-    section 4 C11 / report); measured worst case on adversarial sets ~7*n splits (d=5), on generated worlds
-    far less.  Budget = 12*n*(1+3.5*d) + 400 splits: > 4x the bound on the mean, > 25x the adversarial mean,
-    and the tail probability of a single worst-case set (leaf identical points + 1) is < 1e-15."""
+STEPS_PER_SPLIT = 25  # measured on the pinned tree: exactly 21 steps per split (+19 per build), whatever n
+
+
+def build_budget(n, d, leaf, strategy, n_distinct, maxmult):
+    """Step budget of one build = 5000 + 25 * (budget in *splits*).  Measured: a build costs exactly
+    21 steps per split + 19, whatever n (numpy does the per-point work), so liveness is about the NUMBER OF
+    SPLITS.  A split is *useful* if both sides are non-empty, else *useless* (pivot = maximum on the axis).
+    Identical points always travel together, so a build makes < n_distinct useful splits; a repaired build
+    might in addition cut groups of identical points by index: < n more (the 10*n term).
+
+    balanced (deterministic): d useless splits in a row on one set = it never terminates; a terminating
+    build therefore makes <= d-1 useless splits per useful one, plus <= d per final set (a repaired build
+    may need a full turn of the axes to see that a set cannot be split): <= 2*d*n_distinct.  Budget: 10x.
+
+    fast / random: the number of useless splits is random.  For a set of s > leaf points whose largest
+    group of identical points has c <= c* = min(leaf, maxmult) members, a full turn of the d axes is useless
+    with probability <= exp(-(s-c)/s) <= exp(-1/G), G = (leaf+1)/(leaf+1-c*), under the 'random' strategy, so
+    E[splits] <= (n_distinct-1) * (1 + d*(2+G)).  Budget: 4x that bound on the mean (measured on adversarial
+    worlds - 'leaf' identical points plus one, repeated: >= 7x the worst of 400 seeds, >= 14x the mean; on
+    generated worlds far more) + 50*d*G splits for the tail of a single waiting time (probability that a
+    terminating 'random' build exceeds the budget < 1e-13 for every admissible point set)."""
+    m = max(1, n_distinct)
     if strategy == "balanced":
-        return 10000 + 250 * n * d
-    return 10000 + 300 * n * (1 + 3.5 * d)
+        splits = 200 + 10 * n + 20 * d * m
+    else:
+        cstar = min(leaf, max(1, maxmult))
+        G = (leaf + 1.0) / (leaf + 1.0 - cstar)
+        splits = 200 + 10 * n + 4 * (m - 1) * (1 + d * (2 + G)) + 50 * d * G
+    return int(5000 + STEPS_PER_SPLIT * splits)
 
 
 def query_budget(n, n_nodes):
@@ -293,8 +309,10 @@ class C11(Sim):
         "overflow nor lose all precision); no NaN/inf",
         "n >= 1, 1 <= d <= 5, 1 <= max_leaf_size <= 12, k >= 1 (python int), r >= 0 finite (python float)",
         "point arrays are float64 or int64 ndarrays of shape (n, d); query points are Vec or float64 ndarray of size d",
-        "bounded liveness: 'finishes' means within build_budget(n, d, strategy) interpreter steps "
-        "(function entries + loop back-edges inside mouette), > 10x the worst terminating build ever measured",
+        "bounded liveness: 'finishes' means within build_budget(n, d, leaf, strategy, #distinct points, largest group "
+        "of identical points) interpreter steps (function entries + loop back-edges inside mouette): >= 10x the "
+        "deterministic worst case (balanced), >= 4x a proven bound on the mean and >= 10x every measured terminating "
+        "build (fast/random)",
         "distances are compared with a slack of 4 ulp; radius membership is not judged inside |d_i - r| <= 4 ulp "
         "(except d_i == 0, which no rounding can produce from distinct finite points)",
     ]
@@ -365,11 +383,13 @@ class C11(Sim):
         self.hi = self.P0.max(axis=0).astype(float)
         self.diag = float(np.sqrt(np.sum((self.hi - self.lo) ** 2)))
         self.maxmult = max_multiplicity(self.P0)
+        self.n_distinct = len(np.unique(self.P0, axis=0))
         self.const_axes = [a for a in range(self.d) if self.n > 1 and self.lo[a] == self.hi[a]]
         self.trees = [None] * N_SLOTS
         self.shared = cfg.get("prng_mode") == "shared_stream" and bool(cfg.get("faults_on"))
         self.reseed_self = cfg.get("prng_mode") == "shared_stream" and not cfg.get("faults_on")
         self.prng_consumers = 0
+        self.budget_use = []  # (op, strategy, steps used, budget) of every call that returned - for the margin self-test
         self.builds_judged = 0
         self.queries_judged = 0
         self.strategies_used = set()
@@ -565,7 +585,7 @@ class C11(Sim):
         leaf, strat, slot = int(ev["leaf"]), ev["strategy"], ev["t"]
         dup = dup_class(self.P0, leaf)
         plan = {int(j): m for j, m in ev.get("forced", [])} if self.cfg.get("faults_on") else {}
-        limit = build_budget(n, d, strat)
+        limit = build_budget(n, d, leaf, strat, self.n_distinct, self.maxmult)
         draws = PivotDraws(np.random.choice, plan)
         pts = np.array(self.P0)  # fresh writable copy
         consumers_before = self.prng_consumers
@@ -587,7 +607,7 @@ class C11(Sim):
             site = _outer_site(e.__traceback__) or "spatial.kdtree:__init__"
             # "building the tree finishes"
             self.violation("construction-terminates", "build", "budget_exceeded", site, dup,
-                           "KDTree(...) still running after %d steps (budget %d = >10x any terminating build); %s; "
+                           "KDTree(...) still running after %d steps (budget %d, see build_budget); %s; "
                            "pivot draws so far %d" % (b.steps, limit, info, draws.draws))
         self.builds_judged += 1
         if not out.ok:
@@ -595,6 +615,7 @@ class C11(Sim):
             self.exc_violation("construction-terminates", "build", out, dup, info)
         tree = out.value
         self.trees[slot] = {"tree": tree, "leaf": leaf, "strategy": strat, "dup": dup, "steps": b.steps}
+        self.budget_use.append(("build", strat, b.steps, limit))
         nleaves = self._check_leaves(slot, "build")
         # reach probes, read from the finished tree
         sizes = [a.size for a in self._leaf_arrays(tree)]
@@ -631,6 +652,7 @@ class C11(Sim):
         except SimBudget as e:
             self.violation("knn-count", "knn", "budget_exceeded", _outer_site(e.__traceback__), ac,
                            "query(...) still running after %d steps; %s" % (b.steps, info))
+        self.budget_use.append(("knn", tr["strategy"], b.steps, b.limit))
         if not out.ok:
             self.exc_violation("knn-count", "knn", out, ac, info)
         D = brute_distances(self.P0, np.array(ev["pt"], dtype=np.float64))
@@ -684,6 +706,7 @@ class C11(Sim):
         except SimBudget as e:
             self.violation("radius-exact", "radius", "budget_exceeded", _outer_site(e.__traceback__), ac,
                            "query_radius(...) still running after %d steps; %s" % (b.steps, info))
+        self.budget_use.append(("radius", tr["strategy"], b.steps, b.limit))
         if not out.ok:
             self.exc_violation("radius-exact", "radius", out, ac, info)
         D = brute_distances(self.P0, np.array(ev["pt"], dtype=np.float64))
